@@ -374,7 +374,14 @@ func chooseFunctionCalculator(parameters []*variants.Variant,
 	}
 	paramIndex := int(condition.AsInteger())
 
-	if paramCount < paramIndex+1 {
+	// The options are numbered from 1; position 0 is the selector itself
+	if paramIndex < 1 {
+		err := errors.NewExpressionError("", "WRONG_PARAM_VALUE",
+			"Expected a position of 1 or more but was found "+strconv.Itoa(paramIndex), 0, 0)
+		return nil, err
+	}
+
+	if paramIndex >= paramCount {
 		err := errors.NewExpressionError("", "WRONG_PARAM_COUNT",
 			"Expected at least "+strconv.Itoa(paramIndex+1)+" parameters", 0, 0)
 		return nil, err
@@ -432,10 +439,19 @@ func absFunctionCalculator(parameters []*variants.Variant,
 	result := variants.EmptyVariant()
 	switch value.Type() {
 	case variants.Integer:
-		result.SetAsInteger(int(math.Abs(float64(value.AsInteger()))))
+		// Integer arithmetic: a round trip through float64 loses the low bits of large values
+		intValue := value.AsInteger()
+		if intValue < 0 {
+			intValue = -intValue
+		}
+		result.SetAsInteger(intValue)
 		break
 	case variants.Long:
-		result.SetAsLong(int64(math.Abs(float64(value.AsLong()))))
+		longValue := value.AsLong()
+		if longValue < 0 {
+			longValue = -longValue
+		}
+		result.SetAsLong(longValue)
 		break
 	case variants.Float:
 		result.SetAsFloat(float32(math.Abs(float64(value.AsFloat()))))
@@ -463,7 +479,7 @@ func acosFunctionCalculator(parameters []*variants.Variant,
 	}
 
 	value, err := variantOperations.Convert(getParameter(parameters, 0), variants.Double)
-	if err == nil {
+	if err != nil {
 		return nil, err
 	}
 	result := variants.VariantFromDouble(math.Acos(value.AsDouble()))
